@@ -572,7 +572,7 @@ func init() {
 	core.Register(&core.Check{
 		ID:    "C06",
 		Level: "exploration",
-		Rule:  "struct types built with reflect.StructOf from 19 leaf kinds (bool, all int/uint widths, floats, string, time.Duration, *regexp.Regexp, named int/string types) x 16 wrappers (pointer, nil/empty/1/2-element slices, arrays, nil/empty/1/2-entry maps, slices of pointers, nested structs by value and pointer, inline struct, inline map) nested up to the stated depth x 4 tag forms (none, rename, dotted name with PathSep, ignore) with values from per-kind boundary menus (zero, +-1, min, max, MaxInt64+1, MaxFloat, subnormals, strings containing $ . , { } [ ] quotes and keywords, extreme durations) are merged into an empty config and unpacked into a zero value of the same type; plus every ordered layout of 2 or 3 fields from a menu of 13 overlapping config tags (an object x next to x.c.e, x.g, x.c, x.c.k.z, x.l, x.c.m; a list paths next to paths.depth, paths.glob; an array arr next to arr.1.d) that defines no setting twice; non-trivial = every generated case (cases are distinct type/value combinations)",
+		Rule:  "struct types built with reflect.StructOf from 19 leaf kinds (bool, all int/uint widths, floats, string, time.Duration, *regexp.Regexp, named int/string types) x 16 wrappers (pointer, nil/empty/1/2-element slices, arrays, nil/empty/1/2-entry maps, slices of pointers, nested structs by value and pointer, inline struct, inline map) nested up to the stated depth x 4 tag forms (none, rename, dotted name with PathSep, ignore) with values from per-kind boundary menus (zero, +-1, min, max, MaxInt64+1, MaxFloat, subnormals, strings containing $ . , { } [ ] quotes and keywords, extreme durations) are merged into an empty config and unpacked into a zero value of the same type; plus every ordered layout of 2 or 3 fields from a menu of 13 overlapping config tags (an object x next to x.c.e, x.g, x.c, x.c.k.z, x.l, x.c.m; a list paths next to paths.depth, paths.glob; an array arr next to arr.1.d) that defines no setting twice; non-trivial = every generated case (cases are distinct type/value combinations); plus one struct type round-tripped under 7 sequences of StructTag option values in one process",
 		Assumptions: []string{
 			"comparison equates nil and empty collections, compares regexps by text and follows pointers; ignored fields must come back zero",
 			"not generated, as excluded by the property: nil pointers as elements of lists/maps, arrays directly as map values; an inline map next to a named sibling field",
